@@ -432,6 +432,11 @@ func genBundle(c *ctx, cached bool) {
 			st.Add(&cs.Case{Coq: "(KBun (mkTab [] [] [] []) [] [])", Class: "cache-vs-plain-aliases", Nontrivial: true, Desc: map[string]any{"what": "bundles sharing token objects, verified and attenuated in turn: cache answer = plain verifier's answer"}, OracleFail: f})
 		}
 	}
+	for name, f := range map[string]string{"small-cache": smallCacheOracle(), "spare-capacity-aliases": spareCapacityAliasOracle(), "non-canonical-tokens-in-bundle": nonCanonicalInBundleOracle()} {
+		if f != "" {
+			st.Add(&cs.Case{Coq: "(KBun (mkTab [] [] [] []) [] [])", Class: name, Nontrivial: true, Desc: map[string]any{"what": name}, OracleFail: f})
+		}
+	}
 	// a verifier that caches is a verifier: the attacker's presentations get the plain verifier's answer (also with a discharge of
 	// several KiB, so that cache keys are long)
 	{
